@@ -56,6 +56,10 @@ func hookStats(res *core.CaseResult, rt *hookrt.RT) {
 }
 
 func sampleOf(c run.Ctx, cfg gen.Config, u gen.Universe, ops []seq.Op) any {
+	return sampleOfN(c, cfg, u, ops, 40)
+}
+
+func sampleOfN(c run.Ctx, cfg gen.Config, u gen.Universe, ops []seq.Op, n int) any {
 	var keys []string
 	for i, k := range u.Keys {
 		if i >= 6 {
@@ -64,5 +68,5 @@ func sampleOf(c run.Ctx, cfg gen.Config, u gen.Universe, ops []seq.Op) any {
 		}
 		keys = append(keys, fmt.Sprintf("%x", k.Digest))
 	}
-	return map[string]any{"case": c.ID(), "config": cfg, "universe": u.Desc, "keys": keys, "ops": opsStrings(ops, 40)}
+	return map[string]any{"case": c.ID(), "config": cfg, "universe": u.Desc, "keys": keys, "ops": opsStrings(ops, n)}
 }
